@@ -69,6 +69,8 @@ class Check:
             thms[m.group(1)] = set(a.strip() for a in m.group(2).replace("\n", " ").split(",") if a.strip())
         for m in re.finditer(r"'([^']+)' does not depend on any axioms", text):
             thms[m.group(1)] = set()
+        if theorem_prefixes:
+            thms = {t: a for t, a in thms.items() if any(t.startswith(p) for p in theorem_prefixes)}
         self.cov["checker_cmd"] = f"cd lean && lake build {audit_module.rsplit('.',1)[0]}.* && lake env lean {os.path.relpath(path, LEAN)}  (#print axioms)"
         ok = rc == 0 and len(thms) > 0
         bad = {t: a - ALLOWED_AXIOMS for t, a in thms.items() if a - ALLOWED_AXIOMS}
